@@ -2782,9 +2782,20 @@ class Cond(Generic[X, R], GFI[X, R]):
         elif discard_ is None:
             merged_discard = discard
         else:
-            merged_discard, _ = self.callee.merge(discard, discard_)
+            # old values that were visible, i.e. those of the old condition's branch
+            merged_discard, _ = self.callee.merge(discard, discard_, tr.check)
+        weight = jnp.where(check, w, w_)
+        if not jtu.tree_leaves(merged_discard):
+            # Nothing inside the Cond was resampled (all of its choices are
+            # unselected, e.g. observed mixture components): each branch weight
+            # is relative to that branch's own old sub-trace, so when the
+            # condition changes re-base it on the old visible score.
+            weight = weight + (
+                tr.get_score()
+                - jnp.where(check, tr.trs[0].get_score(), tr.trs[1].get_score())
+            )
         return (
             CondTr(self, check, [new_tr, new_tr_]),
-            jnp.where(check, w, w_),
+            weight,
             merged_discard,
         )
